@@ -26,7 +26,7 @@ CHECKS = {
          "Trusts mc/src/model/xpath.rs (DESIGN.md Appendix C) and the node mapping in mc/src/checks/xp.rs; expressions and documents beyond the bounds are not covered; caller bindings are varied in C10.",
          "DESIGN.md §5 C05"),
  "C06": ("supervised exhaustive sweeps of xml_xpath::query: all token strings up to length L over 41 tokens, an unsupported / ill-typed / select-nothing catalogue in every syntactic position, the well-typed C05 families, 53 hostile shape families (doubling sizes; +2 steps for shapes whose node lists or predicate evaluations multiply per repetition) with growing sizes; crash / hang attributed to the exact expression by worker processes",
-         "Every enumerated expression string is evaluated on five documents (attributes, comments / PIs, namespaces, xml:lang, empty CDATA sections) in supervised workers, with every kind of node as context node of every kind of expression; the only acceptable outcomes are a value or an error (and error-or-empty for variable references and id()); time blow-ups are judged by a soft cap with a 16x growth test.",
+         "Every enumerated expression string is evaluated on six documents (attributes, comments / PIs, namespaces, xml:lang, empty CDATA sections, a prefix bound to the reserved XML namespace name) in supervised workers, with every kind of node as context node of every kind of expression; the only acceptable outcomes are a value or an error (and error-or-empty for variable references and id()); time blow-ups are judged by a soft cap with a growth test against the previous family member (16x per doubling, 2.5x per +2 step).",
          "Time verdicts are caps on user CPU time of the evaluating thread, reported only when the growth against the previous family member is super-polynomial and reproduces on two more measurements; strings longer than L over other tokens are not covered; the worker has the default 8 MiB main-thread stack.",
          "DESIGN.md §5 C06"),
  "C07": ("bounded-exhaustive node-set invariants on the implementation's own results: every path of a pool, every ordered pair (union algebra, counts, positional filters) and every triple of a sub-pool (associativity) on every document",
